@@ -691,6 +691,13 @@ func Run(seed int64, n int, outDir string) error {
 	if err := r.scenarioSharedBound(ctx, sharedOrders); err != nil {
 		return err
 	}
+	poorOrders := 2
+	if thorough {
+		poorOrders = 6
+	}
+	if err := r.scenarioPoor(ctx, poorOrders, thorough); err != nil {
+		return err
+	}
 	extremes := [][3]string{
 		{"1000000000000000000000000000000", "1000", "0.05"},
 		{"1000", "1000000000000000000000000000000", "0.003"},
@@ -755,6 +762,8 @@ func Run(seed int64, n int, outDir string) error {
 			pool, _, _ := w.K.GetPool(ctx, p.ID)
 			a, b := int64(1+w.R.Intn(int(p.C02Span()))), int64(1+w.R.Intn(int(p.C02Span())))
 			r.commit(ctx, p, create(w.R.Intn(3), pool.CurrentTick-a, pool.CurrentTick+b, w.R.LogUniform(30), w.R.LogUniform(30), "create-1-to-1e30"))
+		case w.R.Chance(1, 8) && len(w.C02Positions(ctx, p)) > 0 && r.poorGenerated(ctx, p):
+			// done: a generated create / increase / swap by a sender who holds exactly, or not quite, what it needs
 		case w.R.Chance(1, 10) && r.closeSharedBound(ctx, p):
 			// done: closed a position sharing exactly one bound and traded across the shared tick
 		case w.R.Chance(1, 9) && len(w.C02Positions(ctx, p)) > 0 && len(r.sharedOneBound(ctx, p)) == 0:
